@@ -101,8 +101,9 @@ static std::string guess_filepath(const Patch& patch, bool reverse_patch)
     if (patch.operation == Operation::Add)
         return patch.new_file_path;
 
-    // Reversing the removal of a file is creating it again.
-    if (reverse_patch && patch.operation == Operation::Delete)
+    // Reversing the removal of a file is creating it again. And a file which is to be removed but is not
+    // there (any more) is still the file the patch is about: that is what is left by applying the patch.
+    if (patch.operation == Operation::Delete)
         return patch.old_file_path;
 
     return {};
@@ -661,8 +662,9 @@ int process_patch(const Options& options)
         File input_file;
         // NOTE: the file is only read from here, opening it for writing as well would needlessly fail for read-only files.
         input_file.open(file_to_patch, (mode & ~std::ios_base::out) | std::ios_base::in);
-        const bool is_creating_file = patch.operation == Operation::Add || (options.reverse_patch && patch.operation == Operation::Delete);
-        if (!input_file && (errno != ENOENT || !is_creating_file))
+        // NOTE: for either direction, such as when a removal which has already been applied is to be told as such.
+        const bool may_be_missing = patch.operation == Operation::Add || patch.operation == Operation::Delete;
+        if (!input_file && (errno != ENOENT || !may_be_missing))
             throw std::system_error(errno, std::generic_category(), "Unable to open input file " + file_to_patch);
 
         const auto input_lines = file_as_lines(input_file);
